@@ -6,7 +6,8 @@
   `asStep c out r` reads a result of the generated code started in state `c` as a step of the model: the new state and the
   output, or — an exception — the unchanged state and the exception (a Python exception leaves the object as it was).
   `with self.__lock:` is translated as its body: these theorems are about one thread using the clock; the interleavings of
-  several threads are C19's `Sys` model (linearizability theorems of `PyodaProofs/C19.lean`).
+  several threads are C19's `Sys` model (linearizability theorems of `PyodaProofs/C19.lean`), and the last section
+  (`gen_*_atomic`, `all_ops_atomic_in_source`) ties that model's atomic-step assumption to the lock discipline of the source.
   The ZonedClock theorems hold for EVERY `in_zone` / projection function (abstract parameters `inZone`, `proj`).
 -/
 import PyodaGen.C19
@@ -124,5 +125,104 @@ theorem gen_ZonedClock_getCurrentDate_eq (inZone : Instant → Int → Int → R
 theorem gen_ZonedClock_getCurrentTimeOfDay_eq (inZone : Instant → Int → Int → R Int) (proj : Int → R Int) (zone cal : Int) (c : FakeClock) :
     Gen.C19.ZonedClock.getCurrentTimeOfDay inZone proj zone cal c = ofZoned (zonedRead (fun i => inZone i zone cal >>= proj) c) :=
   zoned_proj inZone proj zone cal c
+
+/-! ## The atomic-step assumption of the interleaving theorems, tied to the source (builder B10)
+
+`with self.__lock:` is translated as its body, so the equations above cannot see the lock.  C19's `Sys` model
+(`PyodaModel/Clock.lean: compile`) runs every public operation as `acquire ; load ; commit op ; release`: ONE critical section
+around the whole read-modify-write, and `linearizable` / `concurrent_reads_distinct` / `all_ops_complete` rest on that.  The
+translator therefore also emits, per method, its lock discipline as data (`<op>.lockInfo : LockInfo`, computed from the AST:
+attributes read and written, whether every access to mutable state is inside `with self.__lock:`, the number of critical
+sections, same-class calls made while holding the lock, steps taken outside it), and the theorems below check
+`LockInfo.Atomic` (`PyodaGen/LockInfo.lean`) on the record of every public operation, by evaluation.  Removing the `with` from
+`reset`, writing `__now` before entering it, splitting `get_current_instant` into a locked read and a locked write, or calling
+`advance` while holding the lock (the deadlock of `advanceUnit_blocks_counterexample`) makes exactly that operation's theorem
+fail, and `common.gen_tie` reports it by name.  The constructor is excluded: the object is not shared before it returns.
+The `advance_<unit>` methods and the ZonedClock getters touch no mutable attribute themselves (`shared = []`; `__clock`,
+`__zone`, `__calendar` are assigned by the constructor only): for them `Atomic` says that they take at most ONE step of
+another operation (`advance`, the wrapped clock's `get_current_instant`). -/
+
+open Pyoda.Gen (LockInfo)
+
+theorem gen_FakeClock_advance_atomic : Gen.C19.FakeClock.advance.lockInfo.Atomic := by decide
+theorem gen_FakeClock_advanceNanoseconds_atomic : Gen.C19.FakeClock.advanceNanoseconds.lockInfo.Atomic := by decide
+theorem gen_FakeClock_advanceTicks_atomic : Gen.C19.FakeClock.advanceTicks.lockInfo.Atomic := by decide
+theorem gen_FakeClock_advanceMilliseconds_atomic : Gen.C19.FakeClock.advanceMilliseconds.lockInfo.Atomic := by decide
+theorem gen_FakeClock_advanceSeconds_atomic : Gen.C19.FakeClock.advanceSeconds.lockInfo.Atomic := by decide
+theorem gen_FakeClock_advanceMinutes_atomic : Gen.C19.FakeClock.advanceMinutes.lockInfo.Atomic := by decide
+theorem gen_FakeClock_advanceHours_atomic : Gen.C19.FakeClock.advanceHours.lockInfo.Atomic := by decide
+theorem gen_FakeClock_advanceDays_atomic : Gen.C19.FakeClock.advanceDays.lockInfo.Atomic := by decide
+theorem gen_FakeClock_reset_atomic : Gen.C19.FakeClock.reset.lockInfo.Atomic := by decide
+theorem gen_FakeClock_getCurrentInstant_atomic : Gen.C19.FakeClock.getCurrentInstant.lockInfo.Atomic := by decide
+theorem gen_FakeClock_getAutoAdvance_atomic : Gen.C19.FakeClock.getAutoAdvance.lockInfo.Atomic := by decide
+theorem gen_FakeClock_setAutoAdvance_atomic : Gen.C19.FakeClock.setAutoAdvance.lockInfo.Atomic := by decide
+theorem gen_ZonedClock_zone_atomic : Gen.C19.ZonedClock.zone.lockInfo.Atomic := by decide
+theorem gen_ZonedClock_calendar_atomic : Gen.C19.ZonedClock.calendar.lockInfo.Atomic := by decide
+theorem gen_ZonedClock_getCurrentInstant_atomic : Gen.C19.ZonedClock.getCurrentInstant.lockInfo.Atomic := by decide
+theorem gen_ZonedClock_getCurrentZonedDateTime_atomic : Gen.C19.ZonedClock.getCurrentZonedDateTime.lockInfo.Atomic := by decide
+theorem gen_ZonedClock_getCurrentLocalDateTime_atomic : Gen.C19.ZonedClock.getCurrentLocalDateTime.lockInfo.Atomic := by decide
+theorem gen_ZonedClock_getCurrentOffsetDateTime_atomic : Gen.C19.ZonedClock.getCurrentOffsetDateTime.lockInfo.Atomic := by decide
+theorem gen_ZonedClock_getCurrentDate_atomic : Gen.C19.ZonedClock.getCurrentDate.lockInfo.Atomic := by decide
+theorem gen_ZonedClock_getCurrentTimeOfDay_atomic : Gen.C19.ZonedClock.getCurrentTimeOfDay.lockInfo.Atomic := by decide
+
+/-- the lock-discipline records of every public FakeClock operation and every ZonedClock member, as regenerated from the source -/
+def publicOps : List (String × LockInfo) := [
+  ("FakeClock.advance", Gen.C19.FakeClock.advance.lockInfo),
+  ("FakeClock.advanceNanoseconds", Gen.C19.FakeClock.advanceNanoseconds.lockInfo),
+  ("FakeClock.advanceTicks", Gen.C19.FakeClock.advanceTicks.lockInfo),
+  ("FakeClock.advanceMilliseconds", Gen.C19.FakeClock.advanceMilliseconds.lockInfo),
+  ("FakeClock.advanceSeconds", Gen.C19.FakeClock.advanceSeconds.lockInfo),
+  ("FakeClock.advanceMinutes", Gen.C19.FakeClock.advanceMinutes.lockInfo),
+  ("FakeClock.advanceHours", Gen.C19.FakeClock.advanceHours.lockInfo),
+  ("FakeClock.advanceDays", Gen.C19.FakeClock.advanceDays.lockInfo),
+  ("FakeClock.reset", Gen.C19.FakeClock.reset.lockInfo),
+  ("FakeClock.getCurrentInstant", Gen.C19.FakeClock.getCurrentInstant.lockInfo),
+  ("FakeClock.getAutoAdvance", Gen.C19.FakeClock.getAutoAdvance.lockInfo),
+  ("FakeClock.setAutoAdvance", Gen.C19.FakeClock.setAutoAdvance.lockInfo),
+  ("ZonedClock.zone", Gen.C19.ZonedClock.zone.lockInfo),
+  ("ZonedClock.calendar", Gen.C19.ZonedClock.calendar.lockInfo),
+  ("ZonedClock.getCurrentInstant", Gen.C19.ZonedClock.getCurrentInstant.lockInfo),
+  ("ZonedClock.getCurrentZonedDateTime", Gen.C19.ZonedClock.getCurrentZonedDateTime.lockInfo),
+  ("ZonedClock.getCurrentLocalDateTime", Gen.C19.ZonedClock.getCurrentLocalDateTime.lockInfo),
+  ("ZonedClock.getCurrentOffsetDateTime", Gen.C19.ZonedClock.getCurrentOffsetDateTime.lockInfo),
+  ("ZonedClock.getCurrentDate", Gen.C19.ZonedClock.getCurrentDate.lockInfo),
+  ("ZonedClock.getCurrentTimeOfDay", Gen.C19.ZonedClock.getCurrentTimeOfDay.lockInfo)]
+
+/-- **The atomic-step assumption holds in the source.**  Every public operation of FakeClock (constructor excluded) and every
+    ZonedClock getter is, in the current Python source, one atomic step in the sense of `LockInfo.Atomic`: this is the tie of the
+    hypothesis under which `Pyoda.C19.linearizable`, `concurrent_reads_distinct` and `all_ops_complete` model an operation as
+    `acquire ; load ; commit ; release` (collected from the per-operation theorems `gen_*_atomic` above, which name the broken
+    operation when the discipline is violated). -/
+theorem all_ops_atomic_in_source : ∀ p ∈ publicOps, p.2.Atomic := by
+  intro p hp
+  simp only [publicOps, List.mem_cons, List.not_mem_nil, or_false] at hp
+  rcases hp with rfl | rfl | rfl | rfl | rfl | rfl | rfl | rfl | rfl | rfl | rfl | rfl | rfl | rfl | rfl | rfl | rfl | rfl | rfl | rfl
+  · exact gen_FakeClock_advance_atomic
+  · exact gen_FakeClock_advanceNanoseconds_atomic
+  · exact gen_FakeClock_advanceTicks_atomic
+  · exact gen_FakeClock_advanceMilliseconds_atomic
+  · exact gen_FakeClock_advanceSeconds_atomic
+  · exact gen_FakeClock_advanceMinutes_atomic
+  · exact gen_FakeClock_advanceHours_atomic
+  · exact gen_FakeClock_advanceDays_atomic
+  · exact gen_FakeClock_reset_atomic
+  · exact gen_FakeClock_getCurrentInstant_atomic
+  · exact gen_FakeClock_getAutoAdvance_atomic
+  · exact gen_FakeClock_setAutoAdvance_atomic
+  · exact gen_ZonedClock_zone_atomic
+  · exact gen_ZonedClock_calendar_atomic
+  · exact gen_ZonedClock_getCurrentInstant_atomic
+  · exact gen_ZonedClock_getCurrentZonedDateTime_atomic
+  · exact gen_ZonedClock_getCurrentLocalDateTime_atomic
+  · exact gen_ZonedClock_getCurrentOffsetDateTime_atomic
+  · exact gen_ZonedClock_getCurrentDate_atomic
+  · exact gen_ZonedClock_getCurrentTimeOfDay_atomic
+
+/-- sanity of the records (the theorems above are not vacuous): exactly these five operations touch mutable state themselves,
+    all under the one lock of the class; the other fifteen are single steps of one of them -/
+theorem gen_FakeClock_shared : (publicOps.filter (fun p => p.2.shared ≠ [])).map (fun p => (p.1, p.2.lock, p.2.shared)) =
+    [("FakeClock.advance", "__lock", ["__now"]), ("FakeClock.reset", "__lock", ["__now"]),
+     ("FakeClock.getCurrentInstant", "__lock", ["__auto_advance", "__now"]),
+     ("FakeClock.getAutoAdvance", "__lock", ["__auto_advance"]), ("FakeClock.setAutoAdvance", "__lock", ["__auto_advance"])] := by decide
 
 end Pyoda.GenAgree.C19
